@@ -6,6 +6,8 @@
  * usage: drv_dtls <cases.txt> <out.ndjson>
  *   X id=<n> cid=<client identity> ckey=<client key> sk=<id:key,id:key,...> hint=<server hint> acc=<1: client accepts the hint>
  *     nq=<requests queued during the handshake> obs=<k: the k-th of them carries Observe (per-request state in the library); 9: all of them>
+ *     shold=1: the server application keeps a reference on the session of the first request;  inj=3 (with rel): cleartext CoAP from the client's
+ *     address after the client has closed its session
  *     tk2=<1: two-byte tokens (i, 0xee) instead of the one-byte token i> nonq=<k: the k-th queued request is Non-confirmable; 9: all> inj=<0 | 1 cleartext CoAP from a new peer | 2 cleartext CoAP from the client's address>
  *     rel=<release the client session after this many ms of virtual time; 0 = never> idcb=<1: server checks the identity, 0: one key for all>
  *     drop=<indices of datagrams to lose, e.g. 0,3>   dup=<indices of datagrams the network delivers twice (the copy right behind the original)>
@@ -25,7 +27,8 @@ static coap_context_t *sctx, *cctx;
 static coap_session_t *csess;
 static coap_address_t srv_addr;
 static char cid[64], ckey[64], hint[64], skid[MAXK][64], skkey[MAXK][64];
-static int nsk, acc, nq, inj, rel, idcb, emitted, nsni, muted, obsq, tk2, nonq;
+static int nsk, acc, nq, inj, rel, idcb, emitted, nsni, muted, obsq, tk2, nonq, shold;
+static coap_session_t *held_s;
 static char sni[64], warm[64], snin[MAXK][64], snikey[MAXK][64];
 static coap_dtls_spsk_info_t sni_info;
 static coap_dtls_cpsk_info_t winfo;       /* what the warm-up session presents */
@@ -80,6 +83,7 @@ static void h_get(coap_resource_t *r, coap_session_t *s, const coap_pdu_t *req, 
   coap_pdu_set_code(resp, COAP_RESPONSE_CODE_CONTENT);
   coap_add_data(resp, 2, (const uint8_t *)"ok");
   if (muted) return;
+  if (shold && !held_s) held_s = coap_session_reference(s);     /* the server application keeps the session it was called on */
   fprintf(sim_trace, "{\"e\":\"SrvReq\",\"t\":%llu,\"proto\":%d,\"tok\":", (unsigned long long)sim_now, (int)coap_session_get_proto(s));
   /* the queued requests carry their number as the query (the token on the wire may be the library's own: block-wise / observe state) */
   if (q && q->length == 1) arr(q->s, 1); else
@@ -244,13 +248,23 @@ static void run_case(int id) {
     /* the server goes away (its close_notify reaches the client) while the client is still waiting */
     sim_run(sim_now + (uint64_t)sclose);
     fputs("{\"e\":\"ServerGone\"}\n", sim_trace);
+    if (held_s) { coap_session_release(held_s); held_s = NULL; }
     sim_remove_node(sctx); coap_free_context(sctx); sctx = NULL;
   }
   if (rel > 0) {
+    coap_address_t was;
+    int have = 0;
     sim_run(sim_now + (uint64_t)rel);
     fputs("{\"e\":\"Release\"}\n", sim_trace);
-    if (csess) coap_session_release(csess);
+    if (csess) { was = csess->addr_info.local; have = 1; coap_session_release(csess); }
     csess = NULL;
+    if (inj == 3 && have) {
+      /* the client has closed its session (close_notify); cleartext CoAP now arrives from the address it had */
+      uint8_t b[8] = {0x41, 1, 0x33, 0x45, 0x99, 0xb1, 'r'};
+      sim_run(sim_now + 1000);
+      fputs("{\"e\":\"Clear\"}\n", sim_trace);
+      sim_inject(&was, &srv_addr, b, 7, 0, -1);
+    }
   }
   sim_run(sim_now + 700000);
   fprintf(sim_trace, "{\"e\":\"Quiet\",\"t\":%llu}\n", (unsigned long long)sim_now);
@@ -258,6 +272,7 @@ static void run_case(int id) {
   if (csess) coap_session_release(csess);
   csess = NULL;
   sim_remove_node(cctx); coap_free_context(cctx); cctx = NULL;
+  if (held_s) { if (sctx) coap_session_release(held_s); held_s = NULL; }
   if (sctx) { sim_remove_node(sctx); coap_free_context(sctx); sctx = NULL; }
   in_teardown = 0;
   fputs("{\"e\":\"End\"}\n", sim_trace);
@@ -294,6 +309,7 @@ int main(int argc, char **argv) {
       buf[0] = 0; field(line, " obs=", buf, sizeof(buf)); obsq = atoi(buf);
       buf[0] = 0; field(line, " tk2=", buf, sizeof(buf)); tk2 = atoi(buf);
       buf[0] = 0; field(line, " nonq=", buf, sizeof(buf)); nonq = atoi(buf);
+      buf[0] = 0; field(line, " shold=", buf, sizeof(buf)); shold = atoi(buf);
       field(line, " rel=", buf, sizeof(buf)); rel = atoi(buf);
       field(line, " idcb=", buf, sizeof(buf)); idcb = atoi(buf);
       field(line, " drop=", buf, sizeof(buf));
